@@ -104,6 +104,11 @@ class WindowedClickThroughRate(
             ),
         )
 
+    def reset(self: TWindowedClickThroughRate) -> TWindowedClickThroughRate:
+        super().reset()
+        self.next_inserted = 0
+        return self
+
     @torch.inference_mode()
     # pyre-ignore[14]: `update` overrides method defined in `Metric` inconsistently.
     def update(
